@@ -19,6 +19,7 @@ ENGINES = {
     "C13": ("props.c13", "run"),
     "C11": ("props.c11", "run"),
     "C20": ("props.c20", "run"),
+    "C18": ("props.c18", "run"),
     "C14": ("props.exec_claims", "run"),
     "C15": ("props.exec_claims", "run"),
 }
